@@ -220,16 +220,79 @@ def _joins(doc, sd):
     return not f.same_parent(t) or f.depth != t.depth
 
 
+def _reparents(sc, doc, sd):
+    """a replace step after which some untouched inline content sits in a parent of another type (split or join
+    with retyping: the content's mark rules change although the step does not touch it)"""
+    if sd["type"] not in ("ReplaceStep", "ReplaceAroundStep"):
+        return False
+    try:
+        st = S.step_from_desc(sc, sd)
+        res = st.apply(doc)
+        if res.failed:
+            return False
+        mp = st.get_map()
+        for p in range(doc.content.size + 1):
+            if sd["from_"] <= p <= sd["to"]:
+                continue
+            r = doc.resolve(p)
+            if not r.parent.inline_content:
+                continue
+            r2 = res.doc.resolve(mp.map(p, 1))
+            if r2.parent.type.name != r.parent.type.name:
+                return True
+    except Exception:  # noqa: BLE001
+        return False
+    return False
+
+
+def _ok_order_result(sc, doc, d):
+    """the document produced by the order of application that succeeded (None if neither or both did)"""
+    ab, ba = d["ab"][0] == "ok", d["ba"][0] == "ok"
+    if ab == ba:
+        return None
+    first, second = (d["a"]["step"], d["b_rebased"]) if ab else (d["b"]["step"], d["a_rebased"])
+    if not isinstance(second, dict):
+        return None
+    try:
+        r1 = S.step_from_desc(sc, first).apply(doc)
+        r2 = S.step_from_desc(sc, second).apply(r1.doc)
+        return r2.doc
+    except Exception:  # noqa: BLE001
+        return None
+
+
 def classify(case):
     d = case.desc
     if d.get("case") != "commute" or not d["separated"]:
         return None
-    doc = Node.from_json(gen.family(d["family"]), d["doc"])
-    ja, jb = _joins(doc, d["a"]["step"]), _joins(doc, d["b"]["step"])
-    kinds = {d["a"]["step"]["type"], d["b"]["step"]["type"]}
+    sc = gen.family(d["family"])
+    doc = Node.from_json(sc, d["doc"])
+    sa, sb = d["a"]["step"], d["b"]["step"]
+    ja, jb = _joins(doc, sa), _joins(doc, sb)
+    kinds = {sa["type"], sb["type"]}
     marky = kinds & {"AddMarkStep", "RemoveMarkStep"}
     if (ja or jb) and marky:
         return "C17-join-vs-mark-context"
+    if marky and (_reparents(sc, doc, sa) or _reparents(sc, doc, sb)):
+        return "C17-join-vs-mark-context"
+    replacey = {"ReplaceStep", "ReplaceAroundStep"}
+    ab, ba = d["ab"], d["ba"]
+    # both orders are refused with the same content error: the two edits are individually fine but together
+    # violate a count constraint of a common ancestor (no divergence: neither order yields a document)
+    if sa["type"] in replacey and sb["type"] in replacey and ab[0] == "fail" and ba[0] == "fail" \
+            and ab[1] == ba[1] and str(ab[1]).startswith("Invalid content for node"):
+        return "C17-both-orders-refused"
+    # an edit inside the gap of a replace-around step whose closed wrapper is not validated against the gap
+    # content (root cause C01-replace-around-closed-wrapper): one order silently yields an invalid document
+    for x in (sa, sb):
+        if x["type"] == "ReplaceAroundStep" and x["slice"]["content"] and x["slice"]["openStart"] == 0 \
+                and x["slice"]["openEnd"] == 0:
+            fin = _ok_order_result(sc, doc, d)
+            if fin is not None:
+                try:
+                    fin.check()
+                except Exception:  # noqa: BLE001
+                    return "C17-gap-edit-vs-unvalidated-wrapper"
     if ja or jb:
         return "C17-joining-replace"
     return None
